@@ -218,6 +218,18 @@ func c17Check(c C17Case, rec *evid.Rec) error {
 	hostile, readAfterPut := false, false
 	distinct := map[int]bool{}
 
+	// otherStored: a stored key other than i if there is one (the lowest), else i itself if stored, else -1
+	otherStored := func(i int) int {
+		for j := range keys {
+			if j != i && stored[j] {
+				return j
+			}
+		}
+		if stored[i] {
+			return i
+		}
+		return -1
+	}
 	read := func(op C17Op) (found bool, content []byte, err error) {
 		k := keys[op.Key]
 		if st.cmem != nil {
@@ -270,6 +282,7 @@ func c17Check(c C17Case, rec *evid.Rec) error {
 			if len(c.Contents[op.Key%len(c.Contents)]) > 1<<16 {
 				tmp = make([]byte, (1+len(op.Chunk)%7)<<14)
 			}
+			first := true
 			for {
 				n, rerr := r.Read(tmp)
 				buf.Write(tmp[:n])
@@ -279,12 +292,38 @@ func c17Check(c C17Case, rec *evid.Rec) error {
 				if rerr != nil {
 					return true, nil, rerr
 				}
+				if first {
+					// while this stream is open and partly read, another stored key (or the same one) is streamed from
+					// start to end: two open streams are two streams
+					first = false
+					if j := otherStored(op.Key); j >= 0 {
+						r2, gerr := storage.GetStream(ctx, st.rw, keys[j])
+						if gerr != nil {
+							return true, nil, fmt.Errorf("a second stream (key %s) opened while one is being read: %v", val.Txt(keys[j]), gerr)
+						}
+						b2, rerr := io.ReadAll(r2)
+						r2.Close()
+						if rerr != nil || !bytes.Equal(b2, c.Contents[j]) {
+							return true, nil, fmt.Errorf("a second stream (key %s) opened while one is being read returned %d bytes (err %v), want the %d stored", val.Txt(keys[j]), len(b2), rerr, len(c.Contents[j]))
+						}
+					}
+				}
 			}
 			return true, buf.Bytes(), nil
 		default: // peek
 			b, closer, perr := storage.Peek(ctx, st.rw, k)
 			if perr != nil {
 				return false, nil, nil
+			}
+			// what was peeked stays valid until it is closed: another key is peeked first
+			if j := otherStored(op.Key); j >= 0 {
+				b2, closer2, perr2 := storage.Peek(ctx, st.rw, keys[j])
+				if perr2 != nil || !bytes.Equal(b2, c.Contents[j]) {
+					return true, nil, fmt.Errorf("a second peek (key %s) while one is held returned %d bytes (err %v), want the %d stored", val.Txt(keys[j]), len(b2), perr2, len(c.Contents[j]))
+				}
+				if closer2 != nil {
+					defer closer2.Close()
+				}
 			}
 			cp := append([]byte{}, b...)
 			if closer != nil {
